@@ -360,7 +360,8 @@ class Prop:
                    "dependence cancels (e.g. only(weight_mask(4,[1,3]) ^ x0)) logic.relevant_symbols misjudges relevance "
                    "by rounding (norm ~1e-8 against a 1e-10 threshold) - a logic.py robustness defect outside this property",
                    "sizes >= 3 along differentiated modes, and > max order for partialset (as quantified)"]
-    THEOREMS = ["C20_partial", "C20_stencil", "C20_constants_annihilated", "C20_affine_to_constant", "C20_sum_of_partials", "C20_partial_shape"]
+    THEOREMS = ["C20_partial", "C20_stencil", "C20_constants_annihilated", "C20_affine_to_constant", "C20_sum_of_partials", "C20_partial_shape",
+                "C20_curl", "C20_laplacian", "C20_divergence"]
 
     # ------------------------------------------------------------------ generation
     def generate(self, rng, tier):
